@@ -572,6 +572,20 @@ def custom_all_matchers(ctx):
     return out
 
 
+def _enum_detail_collisions():
+    """Two or three failing assertions in one body whose mismatch details share names, including names that look
+    like the suffixed form of another (foo / foo-1), with and without a user detail already under that name."""
+    groups = [["foo", "foo-1"], ["foo"], ["foo-1"], ["traceback", "traceback-1"], ["Failed expectation", "Failed expectation-1"]]
+    def step(how, names):
+        return {"how": how, "kind": "details", "matcher": {"m": "WithDetails", "names": names, "matches": False}, "value": 0, "message": "", "verbose": False}
+    for g1 in groups:
+        for g2 in groups:
+            for how2 in ("expectThat", "assertThat"):
+                for user in ([], ["foo"], ["foo-1"], ["traceback"]):
+                    yield {"runner": "default", "steps": [step("expectThat", g1), step(how2, g2)], "ending": "none", "user_details": user}
+            yield {"runner": "default", "steps": [step("expectThat", g1), step("expectThat", g2), step("assertThat", g1)], "ending": "none", "user_details": []}
+
+
 def subchecks(tier):
     q = tier == "quick"
     return [
@@ -579,6 +593,9 @@ def subchecks(tier):
         Sub("hostile_text", run_hostile, s_hostile(), 2500 if q else 200000),
         Sub("text_repr_roundtrip", run_text_repr, TEXT_REPR, 5000 if q else 500000),
         Sub("assert_expect_bodies", run_body, s_body(), 800 if q else 40000),
+        Sub("detail_name_collisions", run_body, enum=_enum_detail_collisions, enum_complete=True,
+            note="every pair (and some triples) of failing assertions whose mismatch details are named foo / foo-1 / traceback(-1) / "
+                 "Failed expectation(-1), x expectThat / assertThat, x a user detail already under one of the names"),
         Sub("every_public_matcher_str", run_public, custom=custom_all_matchers),
         Sub("text_repr_fuzz", run_text_repr, custom=fuzz_custom("props.c07", "text_repr_roundtrip", "testtools.compat", 40000),
             note="atheris/libFuzzer coverage-guided campaign over the text_repr round trip (thorough tier only)"),
